@@ -6,7 +6,7 @@ import math
 import mpmath as mp
 from hypothesis import strategies as st
 
-from ..core import Facet, HarnessError, Violation
+from ..core import Facet, HarnessError, Violation, clear_package_caches
 from ..gen import logfloat
 from ..ref import csvtab, units
 
@@ -63,8 +63,7 @@ VAR_TOL = mp.mpf("2e-15")
 def _clear_caches():
     from scippneutron.atoms import Atom, ScatteringParams
 
-    Atom.for_isotope.cache_clear()
-    ScatteringParams.for_isotope.cache_clear()
+    clear_package_caches()
 
 
 def _same_float(a: float, b: float) -> bool:
